@@ -10,7 +10,10 @@ pub fn attempt_begin(cert_id: &str) {
 			w.same_instant_attempts = 0;
 		}
 		let snap = std::rc::Rc::new(super::snap::pair(w, cert_id));
-		w.push(Ev::AttemptBegin { cert: cert_id.to_string(), snap });
+		w.push(Ev::AttemptBegin {
+			cert: cert_id.to_string(),
+			snap,
+		});
 	});
 }
 
@@ -22,7 +25,8 @@ pub fn attempt_end(cert_id: &str, ok: bool) {
 		}
 		let snap = std::rc::Rc::new(super::snap::pair(w, cert_id));
 		let accs = super::snap::accounts(w);
-		w.account_snaps.push((w.seq + 1, format!("attempt_end:{}", cert_id), accs));
+		w.account_snaps
+			.push((w.seq + 1, format!("attempt_end:{}", cert_id), accs));
 		w.push(Ev::AttemptEnd {
 			cert: cert_id.to_string(),
 			ok,
